@@ -33,5 +33,10 @@ EmitPool == (prog = <<>>) => PrintT("POOL " \o ToJson(PoolProgs))
 Init == prog = <<>> \/ (MaxDeep > 0 /\ prog \in DeepProgs \cup ExportProgs)
 Next == Len(prog) < MaxLen /\ (prog = <<>> \/ prog \notin DeepProgs \cup ExportProgs) /\ \E s \in Alphabet : prog' = Append(prog, s)
 Spec == Init /\ [][Next]_prog
-Emit == prog = <<>> \/ PrintT("CASE " \o ToJson(prog))
+\* the same program with statements i..j-1 moved into an include file (the empty cut i = j is an empty file): .include is
+\* textual, so SymResolve!RefRun of the program is also the reference of every cut; a cut holds no block statement
+IsBlockStmt(s) == s.k \in {"scope", "ends", "func", "endf"}
+Cuts(p) == {c \in (1..Len(p) + 1) \X (1..Len(p) + 1) : c[1] <= c[2] /\ \A k \in c[1]..(c[2] - 1) : ~IsBlockStmt(p[k])}
+EmitInc == prog \in DeepProgs => PrintT("INC " \o ToJson([prog |-> prog, cuts |-> Cuts(prog)]))
+Emit == prog = <<>> \/ (PrintT("CASE " \o ToJson(prog)) /\ (MaxDeep = 0 \/ EmitInc))
 =============================================================================
